@@ -48,15 +48,15 @@ def gen(rng):
         arg = d + '/target'
     elif place == 'vol':
         v = rng.choice(L['vols'])
-        d = v + '/docs'
+        d = L['work'][v]
         arg = d + '/target'
     elif place == 'nested':
         v = [x for x in L['vols'] if x.endswith('/nested')][0]
-        d = v + '/docs'
+        d = L['work'][v]
         arg = d + '/target'
     elif place == 'via_link':
         v = rng.choice(L['vols'])
-        d = v + '/docs'
+        d = L['work'][v]
         steps.append(['l', home + '/w/xlink', d])
         arg = home + '/w/xlink/target'
     elif place == 'link_parent':
